@@ -2,6 +2,7 @@ package rules
 
 import (
 	"go/token"
+	"sort"
 
 	"golang.org/x/tools/go/ssa"
 
@@ -91,4 +92,91 @@ func c18RunExits(c *Ctx, p *core.Prog, run *ssa.Function) {
 		}
 	}
 	r.Floor("run-exits", n, 1, "returns of Run")
+}
+
+// doc-state-cleared: whatever the server remembers per document URI (the document map, any memo keyed by URI)
+// is forgotten when the document is closed; otherwise a re-opened document meets state from its previous life
+// (diagnostics not re-published because "nothing changed").
+func c18DocState(c *Ctx, p *core.Prog) {
+	r := c.R
+	r.Rule("doc-state-cleared", "every map field of a pkg/lsp struct that is written while handling didOpen/didChange (directly or in a callee) has an entry deletion (delete(m, key) or a fresh map) in code reachable from handleDidClose")
+	closeH := p.Method("pkg/lsp", "Handler", "handleDidClose")
+	if closeH == nil {
+		r.Fatal("anchor not found: (*lsp.Handler).handleDidClose")
+		return
+	}
+	inLsp := func(f *ssa.Function) bool { return f != nil && f.Blocks != nil && core.InPkgs(f, "pkg/lsp") }
+	closeReach := p.Reachable([]*ssa.Function{closeH}, inLsp)
+	var openRoots []*ssa.Function
+	for _, nme := range []string{"handleDidOpen", "handleDidChange", "handleDidSave"} {
+		if f := p.Method("pkg/lsp", "Handler", nme); f != nil {
+			openRoots = append(openRoots, f)
+		}
+	}
+	openReach := p.Reachable(openRoots, inLsp)
+	mapField := func(v ssa.Value) (string, bool) {
+		u, ok := v.(*ssa.UnOp)
+		if !ok {
+			return "", false
+		}
+		fa, ok := u.X.(*ssa.FieldAddr)
+		if !ok {
+			return "", false
+		}
+		n := core.NamedOf(fa.X.Type())
+		if n == nil || n.Obj().Pkg() == nil || !core.PathHasSuffix(n.Obj().Pkg().Path(), "pkg/lsp") {
+			return "", false
+		}
+		return n.Obj().Name() + "." + core.FieldName(fa.X.Type(), fa.Field), true
+	}
+	written := map[string]string{}
+	cleared := map[string]bool{}
+	for fn := range openReach {
+		for _, b := range fn.Blocks {
+			for _, in := range b.Instrs {
+				if mu, ok := in.(*ssa.MapUpdate); ok {
+					if k, ok := mapField(mu.Map); ok {
+						if _, seen := written[k]; !seen {
+							written[k] = p.Pos(mu.Pos())
+						}
+					}
+				}
+			}
+		}
+	}
+	for fn := range closeReach {
+		for _, b := range fn.Blocks {
+			for _, in := range b.Instrs {
+				switch x := in.(type) {
+				case *ssa.Call:
+					if core.IsBuiltinCall(&x.Call, "delete") && len(x.Call.Args) > 0 {
+						if k, ok := mapField(x.Call.Args[0]); ok {
+							cleared[k] = true
+						}
+					}
+				case *ssa.Store:
+					if fa, ok := x.Addr.(*ssa.FieldAddr); ok {
+						if _, isMake := x.Val.(*ssa.MakeMap); isMake {
+							if n := core.NamedOf(fa.X.Type()); n != nil {
+								cleared[n.Obj().Name()+"."+core.FieldName(fa.X.Type(), fa.Field)] = true
+							}
+						}
+					}
+				}
+			}
+		}
+	}
+	var ks []string
+	for k := range written {
+		ks = append(ks, k)
+	}
+	sort.Strings(ks)
+	for _, k := range ks {
+		if cleared[k] {
+			r.OK("doc-state-cleared", k, written[k], "entry removed on didClose")
+		} else {
+			r.Violate("doc-state-cleared", k, written[k], "this per-document map is written while a document is opened or changed, but nothing reachable from handleDidClose removes the entry: a document that is closed and opened again meets the state of its previous life")
+		}
+	}
+	r.Floor("doc-state-cleared", len(ks), 1, "per-document maps written on open/change")
 }
